@@ -466,7 +466,7 @@ where
         } else {
             working
                 .iter()
-                .map(|c| N::from_real(c.re) + (-N::one()).sqrt() * N::from_real(c.im))
+                .map(|c| N::from_real(c.re) + N::from_real(-N::RealField::one()).sqrt() * N::from_real(c.im))
                 .collect::<Vec<_>>()
         };
 
